@@ -6,6 +6,14 @@ ALL = ["C%02d" % i for i in range(1, 21)]
 
 # property -> (level, design_ref, engine, technique, level text, level note)
 CLAIMED = {
+ "C17": ("model_checking", "DESIGN.md §2 C17", "vp",
+   "bounded-exhaustive enumeration of operation histories on the real hashtable/skiplist/trie against a dictionary + notifier-registration model (stateless explorer)",
+   "Every history up to the stated depth (from the empty map and from 30 seeded non-initial maps) over put/rm on eight colliding keys, full/prefix iteration, abandoned foreach, notifier add/delete and destroy is executed on each real map implementation through qbmap.h only; return values, get of every key, count, iteration order/content and the exact multiset of notifier calls are compared with the model after every step; ASan is an additional oracle.",
+   "Depth-bounded; key alphabet of 8 keys; skiplist node levels come from a wrapped random() (fixed per key, deviations explored up to 2); per-key notifiers judged only during the life of their entry; trie order = bytes compared as signed chars, a key before its extensions."),
+ "C18": ("model_checking", "DESIGN.md §2 C18", "vp",
+   "bounded-exhaustive enumeration of interleaved iterator and mutation histories on the real maps (stateless explorer, ASan + iteration/dictionary oracles)",
+   "Every history up to the stated depth, from every seeded map, over put/rm of four keys and create/next/free of two simultaneously open iterators is executed on each real map; ASan catches any touch of freed memory, every finished iteration is checked for completeness/uniqueness, the value-release notifier must run exactly once per value, and once the iterators are gone the map must equal the dictionary of survivors. Four genuine defects are listed in known_findings.json; executions are cut exactly where they pass through one of their triggers.",
+   "Depth-bounded; two iterators; four keys; return values of rm/get are not judged while an iterator is open; executions through a listed known-finding trigger are cut (counted in the evidence)."),
  "C20": ("model_checking", "DESIGN.md §2 C20", "vp",
    "bounded-exhaustive enumeration of operation histories on the real qb_hdb against a reference model (stateless explorer)",
    "Every history up to the stated depth over create/get/put/destroy/refcount_get/iterate on live, destroyed, reused-slot and never-issued handle values is executed on the real handle database and compared step by step with a slot/refcount model; ASan is an additional oracle.",
